@@ -90,7 +90,7 @@ func (x *Ctx) flagsWalk(ms *spec.Msg, attrs map[string]tfsdk.Attribute, path str
 	for _, i := range ms.Injected {
 		expected[i.Name] = true
 	}
-	if ms.Empty {
+	if ms.Placeholder {
 		expected["active"] = true
 	}
 	var extra []string
@@ -138,11 +138,11 @@ func (x *Ctx) flagsWalk(ms *spec.Msg, attrs map[string]tfsdk.Attribute, path str
 			*out = append(*out, problem{fp: "injected/plan-modifiers", path: p, msg: fmt.Sprintf("plan modifiers %v, configured %v", got, i.PlanModifiers)})
 		}
 	}
-	if ms.Empty {
+	if ms.Placeholder {
 		p := path + ".active"
 		sa, ok := attrs["active"]
 		switch {
-		case !ok || len(attrs) != 1+len(ms.Injected):
+		case !ok || (ms.Empty && len(attrs) != 1+len(ms.Injected)):
 			*out = append(*out, problem{fp: "placeholder/shape", path: p, msg: fmt.Sprintf("an empty message must show exactly the attribute `active` (have %d attributes)", len(attrs))})
 		case !safeTypeEqual(sa.Type, types.BoolType) || !sa.Computed:
 			*out = append(*out, problem{fp: "placeholder/flags", path: p, msg: fmt.Sprintf("placeholder type %v computed=%v, want Bool computed", sa.Type, sa.Computed)})
